@@ -52,6 +52,20 @@ class Prop(PropBase):
         '(Model/Format.v parse_fmt, format_field) and validated only by the correspondence run',
         'format specs beyond [[fill]align][width] on str/int, attribute access, !a, non-ASCII json '
         'and set reprs are outside the model (verdict 2, counted)',
+        'Tie B (tools/py2coq_c08.py -> Gen/GenC08.v, C08_source_*_is_model): RecursionSpec.__init__, '
+        'RecursiveFormatter._format_keep_type / _get_formatted_iterable / vformat and the way Context '
+        'builds and calls the formatter are re-translated from the current source and proved equal to '
+        'the model; the translator ASSUMES: string.Formatter.parse / get_field / _vformat / '
+        'convert_field / format_field (CPython, checked not to be overridden) and the special tags\' '
+        'get_value are the model\'s parse / get_field / vformat_std / convert_field / format_field / '
+        'eval_pystring, json_dumps (instances in Model/FormatSrc.v; with args=None every numbered or '
+        'auto-numbered field raises in get_field, so auto_arg_index stays 0 on every continuing path); '
+        'docstrings, used_args book-keeping and check_unused_args are effect-free; memoising by id() '
+        'inside one top-level call (memo shared only between calls with the same is_recursive) cannot '
+        'change a result; isinstance over the value universe is the table classes_of; '
+        'obj.__class__(items) rebuilds a dict / list / tuple / set of the same kind (container '
+        'SUBCLASSES are not in the value universe: monitors only); format_spec[:2] / [2:] on UTF-8 '
+        'bytes agree with code points because they are only compared with ASCII prefixes',
     ]
 
     def generate(self, rng, n, tier):
